@@ -24,6 +24,7 @@ for (c,n),r in sorted(rows.items()):
     meta['property']=c
     rnd=(int(n)+1)//2
     meta['pair']=rnd  # 1st, 2nd or 3rd pair delivered for this property (DESIGN.md 17: rounds 1, 2|3, 4)
+    meta['seeded_round']={1:'1',2:'1',3:'2|3',4:'2|3',5:'4',6:'4',7:'5',8:'6',9:'7',10:'8'}.get(int(n),'?')  # DESIGN.md 17.x
     meta['origin']="written by an independent sub-agent that saw only the property text and a private worktree" + ("" if rnd==1 else " (plus one-line summaries of the earlier changes for this property, so that it had to find another mechanism and code site)")
     meta['rebased']= r['patch'].endswith('rebased.diff')
     meta['confirmed']={'repo_head':head,'patch_applies':True,'demo_on_clean_tree_exit':int(r['demo_clean_rc']),'test_suite_with_patch':r['tests'],'demo_with_patch_exit':int(r['demo_patched_rc']),'how':'tools/verify_seeded.sh in a scratch worktree of /repo'}
